@@ -105,6 +105,17 @@ where T: Types
     /// the FlushWorker.
     fn send_request(&mut self, req: WorkerRequest<T>) -> Result<(), io::Error> {
         self.sent_seq += 1;
+        #[cfg(feature = "verif-hooks")]
+        crate::verif_hooks::at("caller.send", match &req {
+            WorkerRequest::Write(_) => crate::verif_hooks::REQ_WRITE,
+            WorkerRequest::AppendFile(_) => crate::verif_hooks::REQ_APPEND_FILE,
+            WorkerRequest::RemoveChunks { .. } => {
+                crate::verif_hooks::REQ_REMOVE_CHUNKS
+            }
+            WorkerRequest::GetFlushStat { .. } => {
+                crate::verif_hooks::REQ_GET_STAT
+            }
+        });
         self.flush_tx
             .send(SeqRequest {
                 seq: self.sent_seq,
